@@ -53,6 +53,13 @@ type unit struct {
 	// as a record and return the updated record next to their result
 	stateStructs []string
 	clockVars    map[string]bool // package variables of type func() time.Time whose (single) call is the oracle parameter clk
+	// interface-typed fields of state structs that may be tested against nil and called through: what is behind them is the
+	// environment (Base/GoExt.v): the record carries a non-nil flag per field and the log of the calls made
+	opaque map[string][]string
+	// package variables of type *int32 read with atomic.LoadInt32: Section variables env_<name> of the generated file
+	envVars map[string]bool
+	// functions whose body is `return <expression without guards>` are also emitted as plain values <name>_val
+	valueFns bool
 }
 
 type stub struct {
@@ -75,6 +82,14 @@ var units = []unit{
 	{out: "SamplerSrc", pkgDir: ".", files: []string{"sampler.go"}, only: []string{"Sample", "inc"},
 		stateStructs: []string{"BasicSampler", "BurstSampler"}, clockVars: map[string]bool{"TimestampFunc": true},
 		externs: map[string]bool{"atomic": true}},
+	{out: "GateSrc", pkgDir: ".", files: []string{"log.go", "globals.go"}, only: []string{"should", "GlobalLevel", "samplingDisabled"},
+		imports: "Base.GoEff Base.GoExt", section: "Variable env_gLevel : Z.\nVariable env_disableSampling : Z.\nVariable ans : nat -> oval.",
+		stateStructs: []string{"Logger"}, opaque: map[string][]string{"Logger": {"w", "sampler"}},
+		envVars: map[string]bool{"gLevel": true, "disableSampling": true}, externs: map[string]bool{"atomic": true}, valueFns: true},
+	{out: "ProxySrc", pkgDir: "hlog/internal/mutil", files: []string{"writer_proxy.go"},
+		only: []string{"WriteHeader", "Write", "maybeWriteHeader", "Status", "BytesWritten"},
+		imports: "Base.GoEff Base.GoExt", section: "Variable ans : nat -> oval.",
+		stateStructs: []string{"basicWriter"}, opaque: map[string][]string{"basicWriter": {"ResponseWriter", "tee"}}},
 }
 
 func main() {
@@ -130,6 +145,8 @@ type pkgCtx struct {
 	stubFn  map[*types.Func]bool
 	clkFn   map[*types.Func]bool          // takes the clock oracle
 	stFields map[string][]*types.Var      // state struct name -> the fields carried in its record
+	stOpaque map[string]map[string]bool   // state struct name -> its opaque (interface-typed) fields
+	valFn    map[*types.Func]bool         // `Ok (expression)`: also available as the plain value <name>_val
 }
 
 type unsupported struct{ msg string }
@@ -179,7 +196,7 @@ func translateUnit(repo string, u unit) (g genOut, err error) {
 	p := &pkgCtx{fset: fset, info: info, pkg: pkg, funcs: map[*types.Func]*ast.FuncDecl{}, fname: map[*types.Func]string{},
 		done: map[*types.Func]bool{}, fuelFn: map[*types.Func]bool{}, orcFn: map[*types.Func]bool{}, divFn: map[*types.Func]bool{}, skipped: map[*types.Func]string{}, globals: map[*types.Var]string{},
 		u: u, effFn: map[*types.Func]bool{}, recOf: map[*types.Func]*types.Func{}, stubFn: map[*types.Func]bool{},
-		clkFn: map[*types.Func]bool{}, stFields: map[string][]*types.Var{}}
+		clkFn: map[*types.Func]bool{}, stFields: map[string][]*types.Var{}, stOpaque: map[string]map[string]bool{}, valFn: map[*types.Func]bool{}}
 	want := map[string]bool{}
 	for _, f := range u.files {
 		want[f] = true
@@ -272,30 +289,47 @@ func translateUnit(repo string, u unit) (g genOut, err error) {
 		}
 		var flds []*types.Var
 		var dropped []string
+		opq := map[string]bool{}
+		for _, on := range u.opaque[sn] {
+			opq[on] = true
+		}
+		p.stOpaque[sn] = map[string]bool{}
+		type rfield struct{ name, typ string }
+		var rf []rfield
 		for i := 0; i < st.NumFields(); i++ {
 			fv := st.Field(i)
-			if typeInSubset(fv.Type()) {
+			if opq[fv.Name()] {
+				if _, isIface := fv.Type().Underlying().(*types.Interface); !isIface {
+					return g, fmt.Errorf("opaque field %s.%s is not of interface type", sn, fv.Name())
+				}
+				p.stOpaque[sn][fv.Name()] = true
+				rf = append(rf, rfield{fv.Name(), "bool"}) // non-nil
+			} else if typeInSubset(fv.Type()) {
 				flds = append(flds, fv)
+				rf = append(rf, rfield{fv.Name(), coqType(fv.Type())})
 			} else {
 				dropped = append(dropped, fv.Name())
 			}
 		}
+		if len(p.stOpaque[sn]) > 0 {
+			rf = append(rf, rfield{"calls", "list ocall"})
+		}
 		p.stFields[sn] = flds
-		var decl, cons []string
-		for _, fv := range flds {
-			decl = append(decl, fmt.Sprintf("%s_%s : %s", sn, fv.Name(), coqType(fv.Type())))
+		var decl []string
+		for _, r := range rf {
+			decl = append(decl, fmt.Sprintf("%s_%s : %s", sn, r.name, r.typ))
 		}
 		fmt.Fprintf(&b, "(* struct %s: fields not carried (outside the subset): %s *)\nRecord %s_st := { %s }.\n", sn, commentSafe(strings.Join(dropped, ", ")), sn, strings.Join(decl, "; "))
-		for _, fv := range flds {
-			cons = nil
-			for _, gv := range flds {
-				if gv == fv {
-					cons = append(cons, fmt.Sprintf("%s_%s := v", sn, gv.Name()))
+		for _, r := range rf {
+			var cons []string
+			for _, q := range rf {
+				if q.name == r.name {
+					cons = append(cons, fmt.Sprintf("%s_%s := v", sn, q.name))
 				} else {
-					cons = append(cons, fmt.Sprintf("%s_%s := %s_%s s", sn, gv.Name(), sn, gv.Name()))
+					cons = append(cons, fmt.Sprintf("%s_%s := %s_%s s", sn, q.name, sn, q.name))
 				}
 			}
-			fmt.Fprintf(&b, "Definition set_%s_%s (s : %s_st) (v : %s) : %s_st := {| %s |}.\n", sn, fv.Name(), sn, coqType(fv.Type()), sn, strings.Join(cons, "; "))
+			fmt.Fprintf(&b, "Definition set_%s_%s (s : %s_st) (v : %s) : %s_st := {| %s |}.\n", sn, r.name, sn, r.typ, sn, strings.Join(cons, "; "))
 		}
 		b.WriteString("\n")
 	}
@@ -952,7 +986,7 @@ func (p *pkgCtx) translateFunc(obj *types.Func) (txt string, nloops int, err err
 		recovers = true
 	}
 	if sig.Results().Len() == 0 {
-		if !f.eff {
+		if !f.eff && f.self == nil {
 			fail("no result")
 		}
 		f.resType = "unit"
@@ -960,8 +994,8 @@ func (p *pkgCtx) translateFunc(obj *types.Func) (txt string, nloops int, err err
 		f.resType = coqType(sig.Results())
 	}
 	if f.self != nil {
-		if f.eff || sig.Results().Len() == 0 {
-			fail("state receiver in an effectful or result-less function")
+		if f.eff {
+			fail("state receiver in an effectful function")
 		}
 		f.resType = "(" + f.resType + " * " + f.selfT + "_st)"
 	}
@@ -975,8 +1009,13 @@ func (p *pkgCtx) translateFunc(obj *types.Func) (txt string, nloops int, err err
 		ex.ret = func(v string) string { return "Ok (" + v + ", " + f.nameOf(f.self) + ")" }
 	}
 	if sig.Results().Len() == 0 {
-		ex.next = func() string { return "eret tt" }
-		ex.ret = func(v string) string { return "eret tt" }
+		if f.self != nil {
+			ex.next = func() string { return "Ok (tt, " + f.nameOf(f.self) + ")" }
+			ex.ret = func(v string) string { return "Ok (tt, " + f.nameOf(f.self) + ")" }
+		} else {
+			ex.next = func() string { return "eret tt" }
+			ex.ret = func(v string) string { return "eret tt" }
+		}
 	}
 	body := f.block(stmts, ex)
 	if recovers {
@@ -1033,6 +1072,17 @@ func (p *pkgCtx) translateFunc(obj *types.Func) (txt string, nloops int, err err
 	recParam := ""
 	if f.recFn != nil {
 		recParam = fmt.Sprintf(" (%s : %s)", f.recName, f.recType)
+	}
+	if p.u.valueFns && !f.eff && f.self == nil && f.recFn == nil && fuelParam == "" && len(f.loops) == 0 && strings.HasPrefix(body, "Ok ") && !strings.Contains(body, "\n") {
+		// a plain value: also available without the monad (may then be called under && and ||)
+		fmt.Fprintf(&b, "Definition %s_val %s : %s :=\n  %s.\n", f.fname, strings.Join(params, " "), f.resType, strings.TrimPrefix(body, "Ok "))
+		var pn []string
+		for i := 0; i < sig.Params().Len(); i++ {
+			pn = append(pn, f.nameOf(sig.Params().At(i)))
+		}
+		fmt.Fprintf(&b, "Definition %s %s : res %s :=\n  Ok (%s).\n", f.fname, strings.Join(params, " "), f.resType, strings.TrimSpace(f.fname+"_val "+strings.Join(pn, " ")))
+		p.valFn[obj] = true
+		return b.String(), f.nloop, nil
 	}
 	fmt.Fprintf(&b, "Definition %s%s%s %s : %s %s :=\n%s.\n", f.fname, recParam, fuelParam, strings.Join(params, " "), f.m("res"), f.resType, indent(f.orcFill(body), 1))
 	return b.String(), f.nloop, nil
@@ -1399,6 +1449,97 @@ func (f *fnCtx) selfField(e ast.Expr) string {
 	}
 	fail("field %s of %s is not carried in the state record", sel.Sel.Name, f.selfT)
 	return ""
+}
+
+// s.f with f an opaque (interface-typed) field of the state receiver: the field name
+func (f *fnCtx) selfOpaque(e ast.Expr) string {
+	sel, ok := e.(*ast.SelectorExpr)
+	if !ok || f.self == nil {
+		return ""
+	}
+	id, ok := sel.X.(*ast.Ident)
+	if !ok || f.p.info.ObjectOf(id) != f.self {
+		return ""
+	}
+	if f.p.stOpaque[f.selfT][sel.Sel.Name] {
+		return sel.Sel.Name
+	}
+	return ""
+}
+
+// a Go value handed to / received from the environment
+func (f *fnCtx) toOval(e ast.Expr) string {
+	t := f.p.info.TypeOf(e)
+	x := paren(f.expr(e))
+	switch {
+	case isBool(t):
+		return "OVBool " + x
+	case isString(t):
+		return "OVBytes " + x
+	case isErrorType(t):
+		return "OVErr " + x
+	}
+	if sg, _, ok := intInfo(t); ok {
+		if sg {
+			return "OVInt " + x
+		}
+		return "OVInt (Z.of_N " + x + ")"
+	}
+	if sl, ok := t.Underlying().(*types.Slice); ok {
+		if _, _, ok := intInfo(sl.Elem()); ok {
+			return "OVBytes " + x
+		}
+	}
+	fail("argument of type %s in a call through an opaque field", t)
+	return ""
+}
+
+func (f *fnCtx) fromOval(v string, t types.Type) string {
+	switch {
+	case isBool(t):
+		return "oval_bool " + v
+	case isErrorType(t):
+		return "oval_err " + v
+	}
+	if sg, _, ok := intInfo(t); ok {
+		if sg {
+			return "oval_int " + v
+		}
+		return "Z.to_N (oval_int " + v + ")"
+	}
+	fail("result of type %s from a call through an opaque field", t)
+	return ""
+}
+
+// s.f.M(args) with f opaque: logged, answered by the environment
+func (f *fnCtx) opaqueCall(field, method string, e *ast.CallExpr) string {
+	if len(f.cond) > 0 {
+		fail("call through an opaque field under a short-circuit operator")
+	}
+	if e.Ellipsis != token.NoPos {
+		fail("call with ...")
+	}
+	var as []string
+	for _, a := range e.Args {
+		as = append(as, f.toOval(a))
+	}
+	sn := f.nameOf(f.self)
+	r := f.tmp("o")
+	callsF := fmt.Sprintf("%s_calls %s", f.selfT, sn)
+	line := fmt.Sprintf("let %s := ans (length (%s)) in\nlet %s := set_%s_calls %s (%s ++ [OCall %s %s [%s]]) in", r, callsF, sn, f.selfT, sn, callsF, bytesLit(field), bytesLit(method), strings.Join(as, "; "))
+	f.pre = append(f.pre, func(k string) string { return line + "\n" + k })
+	res := f.p.info.TypeOf(e)
+	switch rt := res.(type) {
+	case *types.Tuple:
+		switch rt.Len() {
+		case 0:
+			return "tt"
+		case 2:
+			return fmt.Sprintf("(%s, %s)", f.fromOval("(oval_fst "+r+")", rt.At(0).Type()), f.fromOval("(oval_snd "+r+")", rt.At(1).Type()))
+		}
+		fail("call through an opaque field with %d results", rt.Len())
+	}
+	return f.fromOval(r, res)
 }
 
 // &s.f
@@ -2540,6 +2681,18 @@ func (f *fnCtx) expr(e ast.Expr) string {
 			if _, isSlice := t.Underlying().(*types.Slice); isSlice {
 				fail("comparison of a slice with nil")
 			}
+			if of := f.selfOpaque(e.X); of != "" {
+				if id, ok := e.Y.(*ast.Ident); ok {
+					if _, isNil := f.p.info.ObjectOf(id).(*types.Nil); isNil && (e.Op == token.EQL || e.Op == token.NEQ) {
+						flag := fmt.Sprintf("%s_%s %s", f.selfT, of, f.nameOf(f.self))
+						if e.Op == token.EQL {
+							return "negb (" + flag + ")"
+						}
+						return flag
+					}
+				}
+				fail("opaque field %s compared with something other than nil", of)
+			}
 			if isErrorType(tx) || isErrorType(f.p.info.TypeOf(e.Y)) {
 				// only e == nil / e != nil
 				isNil := func(x ast.Expr) bool {
@@ -2819,9 +2972,21 @@ func (f *fnCtx) call(e *ast.CallExpr) string {
 			return "clk"
 		}
 	}
+	if sel, ok := e.Fun.(*ast.SelectorExpr); ok {
+		if of := f.selfOpaque(sel.X); of != "" {
+			return f.opaqueCall(of, sel.Sel.Name, e)
+		}
+	}
 	fn := f.p.calledFunc(e)
 	if fn == nil {
 		fail("call of a function value")
+	}
+	if fn.Pkg() == f.p.pkg && f.p.valFn[fn] {
+		var as []string
+		for _, a := range e.Args {
+			as = append(as, paren(f.expr(a)))
+		}
+		return paren(strings.TrimSpace(f.p.fname[fn] + "_val " + strings.Join(as, " ")))
 	}
 	if fn.Pkg() == f.p.pkg && f.self != nil && f.p.done[fn] && f.isSelfMethodCall(fn, e) {
 		// a method of the same state struct on the same receiver: it returns the updated record
@@ -3051,6 +3216,12 @@ func (f *fnCtx) extern(fn *types.Func, e *ast.CallExpr) string {
 				return fmt.Sprintf("let %s := %s in\nlet %s := if %s then %s %s else %s in\n%s", t, eq, sn, t, set, nw, sn, k)
 			})
 			return t
+		}
+	case "sync/atomic.LoadInt32":
+		if id, ok := e.Args[0].(*ast.Ident); ok && f.p.u.envVars[id.Name] {
+			if v, isVar := f.p.info.Uses[id].(*types.Var); isVar && v.Parent() == f.p.pkg.Scope() {
+				return "env_" + id.Name
+			}
 		}
 	case "(time.Duration).Nanoseconds":
 		return paren(f.expr(e.Fun.(*ast.SelectorExpr).X))
